@@ -1121,7 +1121,31 @@ impl Zoned {
     /// ```
     #[inline]
     pub fn start_of_day(&self) -> Result<Zoned, Error> {
-        self.datetime().start_of_day().to_zoned(self.time_zone().clone())
+        let tz = self.time_zone();
+        let midnight = self.datetime().start_of_day();
+        let ambts = tz.to_ambiguous_timestamp(midnight);
+        // When midnight falls in a gap, the first instant of this day is the
+        // instant of the transition that created the gap. That's what the
+        // "compatible" strategy picks when the gap starts at midnight, but
+        // not when it starts before it. For example, in `America/Toronto`
+        // on `1919-03-31`, the clocks were moved from `23:30` on the day
+        // before to `00:30`, which is thus the first time on that day (and
+        // not `01:00`, which is midnight shifted by the length of the gap).
+        if let AmbiguousOffset::Gap { .. } = ambts.offset() {
+            let later = ambts.clone().later()?;
+            // The transition is at or before `later`, which is midnight
+            // interpreted with the offset in effect before the gap.
+            let after_later = later
+                .checked_add(SignedDuration::from_nanos(1))
+                .unwrap_or(later);
+            if let Some(trans) = tz.preceding(after_later).next() {
+                let start = trans.timestamp().to_zoned(tz.clone());
+                if start.date() == midnight.date() {
+                    return Ok(start);
+                }
+            }
+        }
+        ambts.compatible().map(|ts| ts.to_zoned(tz.clone()))
     }
 
     /// Returns the end of the day, corresponding to `23:59:59.999999999` civil
